@@ -72,6 +72,7 @@ func init() {
 			ruleTSFloor(c)
 			ruleTSTotal(c)
 			ruleCDPure(c)
+			ruleValFold(c)
 		})
 
 	register("C20",
@@ -83,6 +84,7 @@ func init() {
 			ruleWASel(c)
 			ruleSGReg(c)
 			ruleRegOverwrite(c)
+			ruleRegArg(c)
 			ruleRegPair(c)
 			rulePCReg(c)
 			rulePCNew(c)
